@@ -359,6 +359,7 @@ class C31(Check):
                                     raise RuntimeError("seriesref model and mpmath.taylor disagree on %s at degree %d: %s vs %s"
                                                        % (desc, k, hi[k], t2[k]))
                                 self.skip("oracle_disagree:taylor")
+                                self.samples.insert(0, {"oracle_disagree": "taylor", "series": desc})
                                 return
                         self.cls("crosscheck:taylor")
                     else:
@@ -388,6 +389,7 @@ class C31(Check):
                             raise RuntimeError("seriesref model disagrees with the value of %s at x=1/256: %s vs %s"
                                                % (desc, mp.nstr(acc, 40), mp.nstr(fv, 40)))
                         self.skip("oracle_disagree:point")
+                        self.samples.insert(0, {"oracle_disagree": "point", "series": desc})
                         return
                     self.cls("crosscheck:point")
         except (Unjudgeable, ZeroDivisionError, ValueError, OverflowError, mpmath.libmp.NoConvergence):
